@@ -182,6 +182,9 @@ func (p *Plan) MaxRTT() time.Duration {
 				m = r.ReqLat + r.RespLat
 			}
 		}
+		if in.SlowWinAnswer > m {
+			m = in.SlowWinAnswer
+		}
 	}
 	return m
 }
@@ -293,4 +296,18 @@ func (tr *Trace) overlappedLeaderStops(obj int) []*APIRec {
 		}
 	}
 	return out
+}
+
+// baseRTT is the largest request+response latency of the instances' ordinary latency lists (rules that set
+// the latency of single operations are not counted).
+func (p *Plan) baseRTT() time.Duration {
+	var m time.Duration
+	for _, in := range p.Instances {
+		for i, l := range in.Lat {
+			if n := in.Lat[(i+1)%len(in.Lat)]; l+n > m {
+				m = l + n
+			}
+		}
+	}
+	return m
 }
